@@ -47,6 +47,55 @@ fn three(ctx: &mut Ctx, jwt: &str, key: &KeyForDecoding, cfg: &Algorithm, expect
     }
 }
 
+/// HMAC-SHA-256 (RFC 2104) over `sha2`, for tokens the harness signs itself
+fn hmac_sha256(key: &[u8], msg: &[u8]) -> Vec<u8> {
+    use sha2::{Digest, Sha256};
+    let mut k = [0u8; 64];
+    if key.len() > 64 { k[..32].copy_from_slice(&Sha256::digest(key)); } else { k[..key.len()].copy_from_slice(key); }
+    let ipad: Vec<u8> = k.iter().map(|b| b ^ 0x36).collect();
+    let opad: Vec<u8> = k.iter().map(|b| b ^ 0x5c).collect();
+    let inner = Sha256::digest([ipad.as_slice(), msg].concat());
+    Sha256::digest([opad.as_slice(), inner.as_slice()].concat()).to_vec()
+}
+
+/// "The byte-exact issuer-signed JWT" is whatever bytes the issuer signed: a header whose JSON text is laid out
+/// differently (blanks, line breaks, another member order) is as good as a compact one when the signature is over
+/// exactly these bytes. Signed here with HS256 (first checked to reproduce the crate's own signature).
+fn foreign_layout_headers(ctx: &mut Ctx) {
+    let secret = keys::HS_SECRET_A;
+    let payload_json = serde_json::to_string(&payload()).unwrap();
+    let p64 = real::b64url_encode(payload_json.as_bytes());
+    let sign = |h: &str| -> String {
+        let input = format!("{}.{}", real::b64url_encode(h.as_bytes()), p64);
+        format!("{}.{}", input, real::b64url_encode(&hmac_sha256(secret, input.as_bytes())))
+    };
+    // the harness's signer is the crate's signer on the crate's own header text
+    let mut h = Header::new(Algorithm::HS256);
+    h.typ = Some("sd-jwt".into());
+    if let Out::Ok(own) = real::sign(&h, &payload(), &keys::enc_key(0, 0)) {
+        let own_header = real::b64url_decode(own.split('.').next().unwrap_or("")).map(|b| String::from_utf8_lossy(&b).to_string()).unwrap_or_default();
+        let own_payload = own.split('.').nth(1).unwrap_or("").to_string();
+        let input = format!("{}.{}", own.split('.').next().unwrap_or(""), own_payload);
+        let again = format!("{}.{}", input, real::b64url_encode(&hmac_sha256(secret, input.as_bytes())));
+        if again != own { ctx.report.bump("foreign-layout:own-signer-differs"); return; }
+        let _ = own_header;
+    } else { return; }
+    let headers = [
+        "{ \"alg\": \"HS256\", \"typ\": \"sd-jwt\" }", "{\n  \"alg\": \"HS256\",\n  \"typ\": \"sd-jwt\"\n}", " {\"alg\":\"HS256\",\"typ\":\"sd-jwt\"}",
+        "{\"typ\":\"sd-jwt\",\"alg\":\"HS256\"}", "{\"alg\":\"HS256\"}", "{\t\"alg\":\"HS256\"}\n", "{\"alg\":\"HS256\",\"typ\":\"sd-jwt\",\"x\":[1, 2]}",
+    ];
+    for (i, htext) in headers.iter().enumerate() {
+        ctx.report.evaluations += 1;
+        let jwt = sign(htext);
+        let case = json!({"kind":"foreign-layout-header","header_text":htext});
+        three(ctx, &jwt, &keys::dec_key(0, 0), &Algorithm::HS256, true, "foreign-layout-header:genuine", &case, None);
+        // and still only these bytes, this key, this algorithm
+        three(ctx, &jwt, &keys::dec_key(0, 1), &Algorithm::HS256, false, "foreign-layout-header:other-key", &case, None);
+        three(ctx, &jwt, &keys::dec_key(0, 0), &Algorithm::HS384, false, "foreign-layout-header:other-alg", &case, None);
+        if i == 0 { ctx.report.nontrivial_case(&case); }
+    }
+}
+
 fn matrix(ctx: &mut Ctx) {
     // token algorithm x configured algorithm x key (6 families x 2 keys, + public-key bytes as HMAC secret)
     let mut keys_list: Vec<(usize, usize, KeyForDecoding, String)> = Vec::new();
@@ -211,6 +260,7 @@ pub fn run(ctx: &mut Ctx, replay: Option<&Value>) {
         return;
     }
     matrix(ctx);
+    foreign_layout_headers(ctx);
     let mut rng = Rng::fork(ctx.seed, 0xC04);
     mutations(ctx, &mut rng, 64, ctx.tier_thorough);
     ctx.report.exhaustive = false;
